@@ -1,9 +1,9 @@
-\* thorough: grain files (text, ubi, h5), two groups, depth 4
+\* thorough: grain files (text, ubi, h5), one group, depth 4
 SPECIFICATION Spec
 CONSTANTS
   Family = "grains"
   Paths = {"p1", "p2"}
-  Groups = {"grains", "other"}
+  Groups = {"grains"}
   SeedTuples <- SeedsGr
   OpNames = {"WriteGrains", "ReadGrains", "WriteUbis", "ReadUbis", "WriteGrainsH5", "ReadGrainsH5", "PutGrainH5", "Reverse"}
   MaxDepth = 4
